@@ -102,32 +102,26 @@ def comparison_guarded(b, bb, kind, ops):
     return False
 
 
-def run(F, rep, tier):
-    C = Census(F)
-    R, missing = pure_closure(F, C)
-    for m in missing:
-        rep.error('R14.1', 'entry point %s missing' % m)
-    rep.extra['pure_closure_functions'] = len(R)
-    rep.extra['impure_builtins_excluded'] = sorted(n for n in __import__('rules.census', fromlist=['IMPURE']).IMPURE if n in C.reg.by_name)
-    rep.floor('R14.1', 'functions in the pure-language closure', len(R), 1200)
+def _viol_once(rep, rid, key, msg, loc=None):
+    """the same site seen under a second feature set is one violation, not two"""
+    full = '%s|%s' % (rid, key)
+    if any(v['key'] == full for v in rep.violations):
+        return
+    rep.viol(rid, key, msg, loc)
 
-    # ---------------- R14.1
-    rep.rule('R14.1', 'explicit panic census over the pure-language closure: every unwrap / expect / panic! / panicking borrow is keyed '
-             '(function or builtin name, kind, ordinal) and listed with a verdict infeasible / guarded / internal; unlisted => violation')
+
+def census_part(F, C, R, rep, tag=''):
+    """R14.1 + R14.2 over one configuration (tag names a non-default feature set)"""
     sites = C.panic_sites(R)
     for key, fn, c, kind, msg in sites:
         verdict, reason = match_table(T.PANIC_TABLE, key)
         if verdict:
-            rep.ok('R14.1', key, '%s: %s' % (verdict, reason))
+            rep.ok('R14.1', tag + key, '%s: %s' % (verdict, reason))
         else:
-            rep.viol('R14.1', key, 'unreviewed panic site in the pure language: %s in %s%s - a failure here unwinds through try/catch instead of raising a catchable error'
+            _viol_once(rep, 'R14.1', key, 'unreviewed panic site in the pure language: %s in %s%s - a failure here unwinds through try/catch instead of raising a catchable error'
                      % (kind, C.fn_key(fn), (' ("%s")' % msg) if msg else ''), c.loc())
     rep.floor('R14.1', 'panic sites triaged', len(sites), 60)
 
-    # ---------------- R14.2
-    rep.rule('R14.2', 'arithmetic census: each overflow / division / remainder / negation assert in the closure is discharged by a class '
-             '(unit-step counter, non-zero constant divisor, dominating comparison with the right polarity, exit-count decrement) or by '
-             'the reviewed table with an exact per-function count')
     asites = C.arith_sites(R)
     per = {}
     auto = {'counter': 0, 'const-divisor': 0, 'comparison-guarded': 0, 'exit-decrement': 0, 'bounds': 0}
@@ -163,10 +157,10 @@ def run(F, rep, tier):
             continue
         fk = C.fn_key(fn)
         per.setdefault((fk, kind), []).append((b, bb))
-    rep.extra['arithmetic_asserts'] = {'total': len(asites), 'auto_discharged': auto, 'table_sites': sum(len(v) for v in per.values())}
+    rep.extra[tag + 'arithmetic_asserts'] = {'total': len(asites), 'auto_discharged': auto, 'table_sites': sum(len(v) for v in per.values())}
     for cls, n in auto.items():
         if n:
-            rep.ok('R14.2', 'class %s' % cls, '%d assert(s) discharged automatically' % n)
+            rep.ok('R14.2', tag + 'class %s' % cls, '%d assert(s) discharged automatically' % n)
     used = set()
     for (fk, kind), lst in sorted(per.items()):
         ent = None
@@ -182,18 +176,49 @@ def run(F, rep, tier):
                 if not any(re.search(ent[3], str(o)) for x in t_[4] for o in origins(b_, x)):
                     bad = (b_, bb_)
             if bad:
-                rep.viol('R14.2', '%s|%s|operand' % (fk, kind), 'the reviewed argument for %s in %s requires an operand derived from %s, which is no longer the case' % (kind, fk, ent[3]), bad[0].loc(bad[1]))
+                _viol_once(rep, 'R14.2', '%s|%s|operand' % (fk, kind), 'the reviewed argument for %s in %s requires an operand derived from %s, which is no longer the case' % (kind, fk, ent[3]), bad[0].loc(bad[1]))
                 continue
         if ent and len(lst) <= ent[1]:
             used.add(ent[0] + kind)
-            rep.ok('R14.2', '%s %s x%d' % (fk, kind, len(lst)), 'reviewed: ' + ent[2])
+            rep.ok('R14.2', tag + '%s %s x%d' % (fk, kind, len(lst)), 'reviewed: ' + ent[2])
         elif ent:
-            rep.viol('R14.2', '%s|%s|count' % (fk, kind), '%s now has %d unguarded %s assert(s), the reviewed table covers %d: new machine arithmetic on possibly user-controlled values needs review'
+            _viol_once(rep, 'R14.2', '%s|%s|count' % (fk, kind), '%s now has %d unguarded %s assert(s), the reviewed table covers %d: new machine arithmetic on possibly user-controlled values needs review'
                      % (fk, len(lst), kind, ent[1]), lst[-1][0].loc(lst[-1][1]))
         else:
-            rep.viol('R14.2', '%s|%s' % (fk, kind), 'unguarded machine arithmetic (%s x%d) in %s: panics in debug builds / wraps in release for extreme values'
+            _viol_once(rep, 'R14.2', '%s|%s' % (fk, kind), 'unguarded machine arithmetic (%s x%d) in %s: panics in debug builds / wraps in release for extreme values'
                      % (kind, len(lst), fk), lst[0][0].loc(lst[0][1]))
     rep.floor('R14.2', 'arithmetic asserts examined', len(asites), 150)
+
+
+
+def run(F, rep, tier):
+    C = Census(F)
+    R, missing = pure_closure(F, C)
+    for m in missing:
+        rep.error('R14.1', 'entry point %s missing' % m)
+    rep.extra['pure_closure_functions'] = len(R)
+    rep.extra['impure_builtins_excluded'] = sorted(n for n in __import__('rules.census', fromlist=['IMPURE']).IMPURE if n in C.reg.by_name)
+    rep.floor('R14.1', 'functions in the pure-language closure', len(R), 1200)
+
+    # ---------------- R14.1
+    rep.rule('R14.1', 'explicit panic census over the pure-language closure: every unwrap / expect / panic! / panicking borrow is keyed '
+             '(function or builtin name, kind, ordinal) and listed with a verdict infeasible / guarded / internal; unlisted => violation')
+    # ---------------- R14.2
+    rep.rule('R14.2', 'arithmetic census: each overflow / division / remainder / negation assert in the closure is discharged by a class '
+             '(unit-step counter, non-zero constant divisor, dominating comparison with the right polarity, exit-count decrement) or by '
+             'the reviewed table with an exact per-function count')
+    census_part(F, C, R, rep)
+    if tier == 'thorough' and hasattr(F, 'ensure_facts') and getattr(F, 'repo_dir', None):
+        try:
+            fp, _c = F.ensure_facts(F.repo_dir, features='crypto,request')
+            from .core import Facts
+            F2 = Facts(fp)
+            C2 = Census(F2)
+            R2, _m = pure_closure(F2, C2)
+            rep.extra['pure_closure_functions[crypto,request]'] = len(R2)
+            census_part(F2, C2, R2, rep, tag='[features crypto,request] ')
+        except SystemExit as e:
+            rep.note('feature set crypto,request could not be analysed offline: %s' % e)
 
     # ---------------- R14.3
     rep.rule('R14.3', 'NRes values are not silently dropped: every .ok() / is_err() / is_ok() / unwrap_or* on a Result<_, NErr> and every '
